@@ -73,26 +73,26 @@ func (r *recProto) RemovePipe(p mangos.ProtocolPipe) {
 }
 
 type coreBench struct {
-	w          *W
-	mn         *MsgNet
-	kind       string
-	s          mangos.Socket
-	laddr      string
-	l          mangos.Listener
-	daddr      string
-	d          mangos.Dialer
-	recs       map[mangos.Pipe]*pipeRec
-	order      []*pipeRec
-	log        []*hookEv
+	w              *W
+	mn             *MsgNet
+	kind           string
+	s              mangos.Socket
+	laddr          string
+	l              mangos.Listener
+	daddr          string
+	d              mangos.Dialer
+	recs           map[mangos.Pipe]*pipeRec
+	order          []*pipeRec
+	log            []*hookEv
 	closeAttaching []bool // plan: k-th Attaching callback closes the pipe
 	closeAttached  []bool
 	refusePlan     []bool
 	slowDetached   bool
-	nAttaching int
-	nAttached  int
-	dials      []dialEv
-	peers      []*MsgPipe
-	onReject   func(why string)
+	nAttaching     int
+	nAttached      int
+	dials          []dialEv
+	peers          []*MsgPipe
+	onReject       func(why string)
 }
 
 type dialEv struct {
